@@ -212,7 +212,7 @@ func c10Scenarios(thorough bool) []*explore.Scenario {
 func init() {
 	register(&Prop{ID: "C10", Level: "exploration", Variant: "A", Scenarios: c10Scenarios,
 		Run: func(c *explore.Check, thorough bool) {
-			c.Rule = "client in {every discovered ID, 3 (64) enumerated seeds per randomized kind, 5 handshake-capable custom specs, 85 custom specs carrying every ordered key_share list of <=3 distinct groups among {X25519MLKEM768, X25519Kyber768Draft00, X25519, P-256, P-384}, fingerprinted copy of every parrot} x server configuration chosen only among values the on-wire hello offers and the utls server implements: version {1.3,1.2} x CurvePreferences {default, each offered group incl. ones without a share => HRR} x pinned TLS 1.2 suite {default, each offered} x certificate kind {ECDSA, RSA, Ed25519 as verifiable by the offered signature algorithms} x ALPN {none, each offered}; client-side deviations (<=1): Config.NextProtos, Config knob {SessionTicketsDisabled, ClientSessionCache, DynamicRecordSizingDisabled, RenegotiateFreelyAsClient, PreferSkipResumptionOnNilExtension}, build order {Handshake, BuildHandshakeState+Handshake, BuildHandshakeStateWithoutSession+BuildHandshakeState+Handshake}; server-axis deviations <=2 (quick) / full product (thorough). Plus: every client with two or more classical key shares x each share removed from the KeyShareExtension after BuildHandshakeState x the server forced to each listed classical group (HelloRetryRequest when it is the removed one). Oracle: handshake completes on both sides and 1 KiB echoes both ways. distinct = (client, server choice)"
+			c.Rule = "client in {every discovered ID, 3 (64) enumerated seeds per randomized kind, 5 handshake-capable custom specs, 85 custom specs carrying every ordered key_share list of <=3 distinct groups among {X25519MLKEM768, X25519Kyber768Draft00, X25519, P-256, P-384}, fingerprinted copy of every parrot} x server configuration chosen only among values the on-wire hello offers and the utls server implements: version {1.3,1.2,1.1,1.0 as offered} x CurvePreferences {default, each offered group incl. ones without a share => HRR} x pinned TLS 1.2 suite {default, each offered} x certificate kind {ECDSA, RSA, Ed25519 as verifiable by the offered signature algorithms} x ALPN {none, each offered}; client-side deviations (<=1): Config.NextProtos, Config knob {SessionTicketsDisabled, ClientSessionCache, DynamicRecordSizingDisabled, RenegotiateFreelyAsClient, PreferSkipResumptionOnNilExtension}, build order {Handshake, BuildHandshakeState+Handshake, BuildHandshakeStateWithoutSession+BuildHandshakeState+Handshake}; server-axis deviations <=2 (quick) / full product (thorough). Plus: every client with two or more classical key shares x each share removed from the KeyShareExtension after BuildHandshakeState x the server forced to each listed classical group (HelloRetryRequest when it is the removed one). Oracle: handshake completes on both sides and 1 KiB echoes both ways. distinct = (client, server choice)"
 			c.Assumptions = []string{"server choices are restricted (by a small negotiation model over the parsed on-wire hello) to ones a compliant server must accept, so every failure is a violation; who aborted is classified from the error texts", "peer is utls's own Server (TLS 1.3 suite selection not pinned); PSK parrots run with OmitEmptyPsk"}
 			runAll(c, c10Scenarios(thorough), 0)
 			c.Gate(c.Total.Counters["completed"] > 1000, "non-vacuity: completed=%d", c.Total.Counters["completed"])
